@@ -395,7 +395,17 @@ func (e *Exec) rank(s Str) *Term {
 	return t
 }
 
+// builtCheck: the order/equality of strings built from arbitrary names depends on the names'
+// content (separators, prefixes), which the atom abstraction does not have: stop, so that the run
+// is repeated with names as bounded byte strings (RunConfig.AtomFallback).
+func builtCheck(a, b Str) {
+	if a.built || b.built {
+		panic(unsupported("comparison of a string built from atom strings"))
+	}
+}
+
 func (e *Exec) strEq(a, b Str) *Term {
+	builtCheck(a, b)
 	if a.isConc() && b.isConc() {
 		return B(a.conc == b.conc)
 	}
@@ -406,6 +416,7 @@ func (e *Exec) strEq(a, b Str) *Term {
 }
 
 func (e *Exec) strLt(a, b Str) *Term {
+	builtCheck(a, b)
 	if a.isConc() && b.isConc() {
 		return B(a.conc < b.conc)
 	}
